@@ -309,18 +309,29 @@ PROPS = {
         assumptions=[],
     ),
     "C09": dict(
-        units=[],
+        units=["conv"],
         kani=["std_conv", "phase"],
         kani_quick=True,
         level="proof",
-        level_text="CONVERSION LAYER ONLY. Kani harnesses on the real crates (loop-free or loops bounded by a constant with unwinding "
-                   "assertions on, hence complete proofs over the full input domain, each yielding a concrete counterexample on failure): "
-                   "read(build(x)) == x for every time::Duration, every IPv4/IPv6 SocketAddr (all addresses, all ports), every Phase, every View "
-                   "(all 2^256 genesis hashes, all epochs and view numbers), every ReplicaCommit; Duration/Timestamp decoding is total.",
+        level_text="CONVERSION LAYER ONLY (value <-> prost message; sentence 1 of the statement at that layer). Verus, unit conv: the prost "
+                   "message types are generated mechanically from /repo's .proto files on every run; the trait ProtoFmt carries the round-trip "
+                   "contract (build ensures p == enc(self); read ensures forall x. enc(x) == *r ==> result == Ok(x)) and every `impl ProtoFmt` "
+                   "block copied from /repo must satisfy it, so read(build(x)) == Ok(x) for EVERY value, and build is a function of the value: "
+                   "GenesisHash, PayloadHash, MsgHash, View, BlockHeader, ReplicaCommit, Phase, Signers, CommitQC, ReplicaTimeout, TimeoutQC "
+                   "(BTreeMap <-> two parallel repeated fields in key order, loop invariant over the zip), ProposalJustification, LeaderProposal "
+                   "(incl. empty-but-present payloads), ReplicaNewView, ChonkyMsg, ConsensusMsg, FinalBlock, PreGenesisBlock, Block, Proposal, "
+                   "ChonkyV2State, ReplicaState (the stored state), ValidatorInfo, LeaderSelection(Mode), NetAddress, Msg, Signed<V> with the three "
+                   "Variant impls, and the generic helpers required / read_required / read_optional. Kani (complete harnesses on the real "
+                   "crates, concrete counterexamples): Duration, SocketAddr (all addresses and ports), Phase, View, ReplicaCommit round-trip; "
+                   "Duration/Timestamp decoding total.",
         level_note="NOT decided: the protobuf wire layer (prost, quick_protobuf, the reflection-driven canonical_raw, the build-time schema "
-                   "check) -- sentences 2 and 3 of the statement stay with the existing tests; variable-length types (BitVec, Signers, Payload, "
-                   "certificates, TimeoutQC's BTreeMap order) are not harnessed. Trusted: Kani/CBMC, the time and std crates as compiled.",
-        technique="Kani complete harnesses (full-domain symbolic inputs, loop-free / constant-bounded with unwinding assertions) on the real crates",
+                   "check) -- sentences 2 and 3 of the statement stay with the existing tests. Assumed leaves (A3/A2): ByteFmt of keccak digests, "
+                   "ProtoFmt of PublicKey/Signature/AggregateSignature (blst), of bit_vec::BitVec (from_bytes/to_bytes/truncate), of SocketAddr and "
+                   "Utc inside the Verus unit (SocketAddr is decided by Kani). Schedule / Genesis decode through Schedule::new (validation + "
+                   "sort) and are not under the round-trip contract (it holds only for values satisfying the type's invariant); network-crate "
+                   "handshake / RPC messages are not yet extracted. `enc` (one spec function per type) is the wire schema mapping: a deliberate "
+                   "format change has to change it. Vec equality is content equality; BTreeMap iterates in strictly increasing key order (A1).",
+        technique="contract-based deductive verification (Verus: round-trip contract on the ProtoFmt trait, real impl blocks, proto types generated from .proto) + Kani complete harnesses on the real leaf conversions",
         design_ref="DESIGN.md §5 C09",
         assumptions=[],
     ),
